@@ -1,4 +1,5 @@
 import BqVerif.Proofs.Worker
+import BqVerif.Proofs.Cleanup
 import BqVerif.Model.RuntimeWitness
 /-!
 # C12 — cancelling removes the work everywhere and disturbs nothing else
@@ -61,12 +62,10 @@ theorem C12_cancel_drops (r : Run) (m : Nat) (b : Box) (hf : Fresh r.w)
 
 example : Gone ({ id := 0, counter := 1 } : Worker) 0 := ⟨by decide, rfl⟩
 
-/-- **Clean-up, the part that holds** (`_handle_cancel`): right after a worker processed
+/-- **Clean-up at the moment of the CANCEL** (`_handle_cancel`): right after a worker processed
     `CANCEL a` it holds no started task and no delayed task that is `a` or a descendant of
-    `a`, and none of the mailboxes those tasks owned.  What is missing for the full clean-up
-    claim of C12: tasks of the lineage that *arrive later* (see `C12_leak_witness`) and
-    mailboxes skipped by the completion clean-up (see `C12_orphan_witness`). -/
-theorem C12_cleanup_partial (w : Worker) (a : Addr) :
+    `a`, and none of the mailboxes those tasks owned. -/
+theorem C12_cleanup_on_cancel (w : Worker) (a : Addr) :
     (∀ t ∈ (w.handleCancel a).tasks, t.descOf a = false)
     ∧ (∀ t ∈ (w.handleCancel a).delayed, t.descOf a = false)
     ∧ (∀ t ∈ w.tasks, t.descOf a = true → ∀ m ∈ t.owned, boxGet (w.handleCancel a).boxes m = none) := by
@@ -86,6 +85,34 @@ theorem C12_cleanup_partial (w : Worker) (a : Addr) :
       simp only [List.mem_flatten, List.mem_map, List.mem_filter]
       exact ⟨t.owned, ⟨t, ⟨ht, hd⟩, rfl⟩, hm⟩
     simp [this] at hp
+
+/-- **Clean-up at quiescence, worker level** (holds since dfc4d06).  Start from a worker with
+    empty tables and let ANY messages arrive in ANY order, interleaved with loop iterations.
+    Whenever the worker is idle (it reported WAITING and its ready queue is empty) it holds no
+    delayed task, and every task left in its table either has no cancelled ancestor, or is a
+    task that was delivered after the CANCEL of its *own* address.  The second alternative is
+    what separates this from the full `C12_cleanup_at_quiescence`: the first `continue` of
+    `_get_next_ready_task` (`addr in _cancelled_task_ids`) still does not pop the task, so
+    excluding it needs the network fact that SUBMIT and CANCEL of one address travel the same
+    FIFO links in this order - a path-ordering invariant of `Net` that is not proved. -/
+theorem C12_cleanup_at_quiescence_partial (tbl : Table) (w : Worker) (ops : List WOp)
+    (h0 : w.tasks = []) (h1 : w.delayed = [])
+    (hb : (ops.foldl (Worker.applyOp tbl) w).blocked = true)
+    (hr : (ops.foldl (Worker.applyOp tbl) w).ready = []) :
+    (ops.foldl (Worker.applyOp tbl) w).delayed = [] ∧
+    ∀ t ∈ (ops.foldl (Worker.applyOp tbl) w).tasks,
+      t.addr ∈ (ops.foldl (Worker.applyOp tbl) w).cancelled ∨
+      ∀ c ∈ t.crumbs, c ∉ (ops.foldl (Worker.applyOp tbl) w).cancelled :=
+  cleanup_worker tbl w ops
+    ⟨by rw [h0]; exact List.nodup_nil, by intro t ht; rw [h0] at ht; cases ht, fun _ _ => h1⟩ hb hr
+
+/-- **Completion-time clean-up** (holds since 6ca9fa1): when a task returns and
+    `_process_task_completion` does not raise, every mailbox the task still owned - those it
+    never awaited - is dropped, and (ids are never reused) stays dropped. -/
+theorem C12_completion_clears_mailboxes (r : Run) (v : Val) (hf : Fresh r.w)
+    (hg : (taskGet r.w.tasks r.t.addr).isSome) (h : (processCompletion r v).2 = false) :
+    ∀ m ∈ r.t.owned, Gone (processCompletion r v).1.w m :=
+  processCompletion_clears r v hf hg h
 
 /-- regression (formerly `C12_leak_witness`, fixed by dfc4d06): the run in which the child's
     SUBMIT_BATCH reaches the worker after the CANCEL of its ancestor now ends with an empty task
